@@ -122,6 +122,28 @@ Theorem C05_seq_queries_keep_entries (h : list (@sop T)) (M0 M : mat T) (outs : 
   List.forallb (@is_query T) h -> srun AOps h M0 = Ok (M, outs) -> M = M0.
 Proof. exact (@seq_queries_keep_entries T AOps h M0 M outs). Qed.
 Print Assumptions C05_seq_queries_keep_entries.
+
+(** Call histories on SEVERAL objects with interleaved calls ([mrun]: a step is (object index, call)).  The same
+    clauses: the answer an object gives depends on its own current entries only - not on what it or any other object
+    was asked before, nor on what happened to the other objects. *)
+(** the answer to a query put to object k after any interleaved history is [squery M q] for the current entries M of k *)
+Theorem C05_hist_answer_after_history (h : list (nat * @sop T)) (k : nat) (q : @sop T) (Ms0 Ms : list (mat T)) (M : mat T)
+    (outs : list (@sout T)) :
+  mrun AOps h Ms0 = Ok (Ms, outs) -> List.nth_error Ms k = Some M -> is_query q ->
+  mrun AOps (h ++ [:: (k, q)]) Ms0 = rbind (squery AOps M q) (fun a => Ok (Ms, (outs ++ [:: a])%list)).
+Proof. exact (@hist_answer_after_history T AOps h k q Ms0 Ms M outs). Qed.
+Print Assumptions C05_hist_answer_after_history.
+(** a call on object k' leaves the entries of every other object as they are ... *)
+Theorem C05_hist_other_objects_untouched (Ms Ms' : list (mat T)) (k k' : nat) (o : @sop T) (a : @sout T) :
+  mstep AOps Ms (k', o) = Ok (Ms', a) -> k <> k' -> List.nth_error Ms' k = List.nth_error Ms k.
+Proof. exact (@hist_other_objects_untouched T AOps Ms Ms' k k' o a). Qed.
+Print Assumptions C05_hist_other_objects_untouched.
+(** ... and acts on the called object exactly as the same call in a one-object history ([sstep]) *)
+Theorem C05_hist_called_object_updated (Ms Ms' : list (mat T)) (k : nat) (o : @sop T) (a : @sout T) (M : mat T) :
+  List.nth_error Ms k = Some M -> mstep AOps Ms (k, o) = Ok (Ms', a) ->
+  exists M', sstep AOps M o = Ok (M', a) /\ List.nth_error Ms' k = Some M'.
+Proof. exact (@hist_called_object_updated T AOps Ms Ms' k o a M). Qed.
+Print Assumptions C05_hist_called_object_updated.
 End AnyArithmetic.
 
 Section RealField.
